@@ -88,26 +88,44 @@ pub fn phase(sim: &mut Sim, rng: &mut Rng, rep: &mut Report) -> Result<(), Strin
 	// preimage known to the future cheater when its state is captured (so that its HTLC-success transactions
 	// exist), and the close is by that revoked state
 	let focus: Option<(usize, usize)> = if sim.w.justice_focus && rng.chance(1, 3) { Some(if rng.chance(1, 2) { (a, b) } else { (b, a) }) } else { None };
+	// fee chaser runs (see below) are prepared here: one HTLC worth claiming at any fee level, left unclaimed
+	let want_chase = focus.is_none() && !sim.w.chain_equiv && !sim.w.late_update && sim.w.chans[ci].ctype != crate::model::ChanType::Legacy && rng.chance(1, 4);
+	let mut chase_hash: Option<[u8; 32]> = None;
+	if want_chase {
+		rep.count("onchain_fee_chaser_wanted");
+	}
 	if focus.is_some() {
 		rep.count("onchain_justice_focus_runs");
 	}
 	// a few more HTLCs above the dust limit, committed but unresolved when the channel closes
-	for _ in 0..(if focus.is_some() { 3 + rng.below(3) } else { rng.below(5) }) {
+	for _ in 0..(if focus.is_some() { 3 + rng.below(3) } else if want_chase { 1 + rng.below(4) } else { rng.below(5) }) {
+		let cid = sim.w.chans[ci].chan_id();
 		let (src, dst) = match focus {
 			Some(f) => f,
+			None if want_chase && chase_hash.is_none() => {
+				// (the direction with more room)
+				let lim = |w: &crate::sim::World, n: usize| w.nodes[n].mgr.list_usable_channels().into_iter().find(|c| c.channel_id == cid).map(|c| c.next_outbound_htlc_limit_msat).unwrap_or(0);
+				if lim(&sim.w, a) >= lim(&sim.w, b) { (a, b) } else { (b, a) }
+			},
 			None => if rng.chance(1, 2) { (a, b) } else { (b, a) },
 		};
-		let cid = sim.w.chans[ci].chan_id();
 		if let Some(d) = sim.w.nodes[src].mgr.list_usable_channels().into_iter().find(|c| c.channel_id == cid) {
 			let hi = d.next_outbound_htlc_limit_msat;
-			if hi > 3_000_000 {
+			if want_chase && chase_hash.is_none() && hi > 34_000_000 {
+				let amt = 32_000_000 + rng.below((hi - 32_000_000).min(80_000_000));
+				sim.w.note(format!("ONCHAIN-PREP SEND node{}->node{} amt={} (fee chaser target)", src, dst, amt));
+				if let Ok(pi) = sim.w.send_payment(src, &[(vec![ci], amt)], 80, None, None) {
+					chase_hash = Some(sim.w.payments[pi].hash.0);
+					rep.count("onchain_fee_chaser_target_sent");
+				}
+			} else if hi > 3_000_000 {
 				let amt = 1_000_000 + rng.below((hi / 8).max(1));
 				sim.w.note(format!("ONCHAIN-PREP SEND node{}->node{} amt={}", src, dst, amt));
 				let _ = sim.w.send_payment(src, &[(vec![ci], amt)], *rng.pick(&[42u32, 50, 80, 144]), None, None);
 			}
 		}
 	}
-	if focus.is_some() || rng.chance(3, 4) {
+	if focus.is_some() || want_chase || rng.chance(3, 4) {
 		sim.w.deliver_all(10_000);
 		for k in 0..n {
 			sim.w.complete_all(k);
@@ -127,7 +145,9 @@ pub fn phase(sim: &mut Sim, rng: &mut Rng, rep: &mut Report) -> Result<(), Strin
 		// HTLC-success transactions then exist), the fulfil not yet delivered
 		let mut k = 0;
 		while k < sim.w.claimable.len() {
-			if focus.is_some() || rng.chance(1, 2) {
+			if Some(sim.w.claimable[k].hash.0) == chase_hash {
+				k += 1;
+			} else if focus.is_some() || rng.chance(1, 2) {
 				sim.w.note(format!("ONCHAIN-PREP claim claimable {} before the states are captured", k));
 				sim.w.claim(k);
 			} else {
@@ -162,7 +182,11 @@ pub fn phase(sim: &mut Sim, rng: &mut Rng, rep: &mut Report) -> Result<(), Strin
 	// in half of the runs the miner has a fee policy that follows the fee level, and the level walks
 	// (only for channel types whose every transaction can be fee-bumped: the pre-signed commitment and HTLC
 	// transactions of a pre-anchor channel cannot follow a rising fee level by construction)
-	let fee_market = rng.chance(1, 2) && sim.w.chans[ci].ctype != crate::model::ChanType::Legacy;
+	let chase_ready = chase_hash.map(|h| sim.w.claimable.iter().any(|c| c.hash.0 == h && c.preimage.is_some())).unwrap_or(false);
+	if chase_ready {
+		rep.count("onchain_fee_chaser_target_claimable");
+	}
+	let fee_market = (rng.chance(1, 2) || chase_ready) && sim.w.chans[ci].ctype != crate::model::ChanType::Legacy;
 	if fee_market {
 		sim.w.miner_delay_max = sim.w.miner_delay_max.min(3);
 		sim.w.miner_min_feerate = sim.w.fee_now;
@@ -178,7 +202,9 @@ pub fn phase(sim: &mut Sim, rng: &mut Rng, rep: &mut Report) -> Result<(), Strin
 	// some recipients learn preimages that can now only be used on chain
 	let mut k = 0;
 	while k < sim.w.claimable.len() {
-		if rng.chance(1, 2) {
+		if Some(sim.w.claimable[k].hash.0) == chase_hash {
+			k += 1;
+		} else if rng.chance(1, 2) {
 			sim.w.note(format!("ONCHAIN claim claimable {} (the fulfil may never reach the peer)", k));
 			sim.w.claim(k);
 		} else {
@@ -194,7 +220,7 @@ pub fn phase(sim: &mut Sim, rng: &mut Rng, rep: &mut Report) -> Result<(), Strin
 	if focus_idx.is_some() {
 		rep.count("onchain_justice_focus_closes");
 	}
-	if !revoked.is_empty() && (focus_idx.is_some() || rng.chance(1, 2)) {
+	if !revoked.is_empty() && !chase_ready && (focus_idx.is_some() || rng.chance(1, 2)) {
 		let c = sim.w.captured[match focus_idx {
 			Some(i) => i,
 			None => if rng.chance(1, 2) { *revoked.last().unwrap() } else { *rng.pick(&revoked) },
@@ -326,9 +352,10 @@ pub fn phase(sim: &mut Sim, rng: &mut Rng, rep: &mut Report) -> Result<(), Strin
 	// gets it confirmed in time; U4 judges the outcome (see the entitlement rule in monitors/onchain.rs).
 	let tc = lightning::ln::verif_api::timing_constants();
 	let mut chase: Option<(usize, [u8; 32], u32)> = None; // (claiming node, payment hash, expiry)
-	if fee_market && !rec.revoked && !sim.w.chain_equiv && !late_mode && rng.chance(1, 3) {
+	if fee_market && !rec.revoked && !sim.w.chain_equiv && !late_mode && chase_ready {
 		let h = sim.w.chain.height();
-		if let Some(c) = sim.w.claimable.iter().filter(|c| c.preimage.is_some()).find(|c| c.deadline.map(|d| d > h + 8).unwrap_or(false)) {
+		// (worth well above what the entitlement rule writes off as not worth its claim fee under a fee market)
+		if let Some(c) = sim.w.claimable.iter().filter(|c| Some(c.hash.0) == chase_hash && c.amount_msat >= 30_000_000).find(|c| c.deadline.map(|d| d > h + 8).unwrap_or(false)) {
 			chase = Some((c.node, c.hash.0, c.deadline.unwrap() + tc.htlc_fail_back_buffer));
 			sim.w.miner_delay_max = sim.w.miner_delay_max.min(2);
 			rep.count("onchain_fee_chaser_runs");
@@ -443,6 +470,13 @@ pub fn phase(sim: &mut Sim, rng: &mut Rng, rep: &mut Report) -> Result<(), Strin
 					rep.count("onchain_claims_after_the_close");
 					if is_target {
 						rep.count("onchain_fee_chaser_targets_claimed");
+						// the chase starts from a calm fee market
+						sim.w.note(format!("ONCHAIN fee chaser: level {} -> 253 before the target is claimed", sim.w.fee_now));
+						for j in 0..n {
+							sim.w.nodes[j].set_fee(253);
+						}
+						sim.w.fee_now = 253;
+						sim.w.miner_min_feerate = 253;
 					}
 				} else {
 					k += 1;
@@ -452,17 +486,24 @@ pub fn phase(sim: &mut Sim, rng: &mut Rng, rep: &mut Report) -> Result<(), Strin
 		}
 		if let Some((cn, _, expiry)) = chase {
 			sim.w.relay_broadcasts();
-			let mut fresh = false;
+			let mut fresh: Option<u64> = None; // highest feerate (sat per 1000 weight) among what the node has just relayed
 			for (node, txid) in sim.w.relayed_valid[relay_cursor..].iter() {
 				if *node == cn && relays_seen.insert(*txid) {
-					fresh = true;
+					if let Some(tx) = sim.w.chain.mempool.iter().find(|t| t.compute_txid() == *txid) {
+						let inv: u64 = tx.input.iter().map(|i| sim.w.chain.all_outputs.get(&i.previous_output).map(|o| o.value.to_sat()).unwrap_or(0)).sum();
+						let outv: u64 = tx.output.iter().map(|o| o.value.to_sat()).sum();
+						let rate = inv.saturating_sub(outv) * 1000 / tx.weight().to_wu().max(1);
+						fresh = Some(fresh.unwrap_or(0).max(rate));
+					}
 				}
 			}
 			relay_cursor = sim.w.relayed_valid.len();
 			let h = sim.w.chain.height();
 			let cur = sim.w.fee_now;
-			if fresh && h + 10 < expiry && h + 46 >= expiry && chase_raises < 8 && cur < 12_000 {
-				let new = (cur + cur * 2 / 5 + 1).min(12_000);
+			// the new level is just above what the node has offered (its estimator asks for twice the level on
+			// urgent claims, so the next offer will be above the new level again)
+			let new = fresh.map(|r| (r + r / 10 + 1) as u32).unwrap_or(0);
+			if fresh.is_some() && new > cur && new <= 12_000 && h + 10 < expiry && h + 46 >= expiry && chase_raises < 8 {
 				sim.w.note(format!("ONCHAIN fee chaser: level {} -> {} right after node{} relayed (expiry {})", cur, new, cn, expiry));
 				for k in 0..n {
 					sim.w.nodes[k].set_fee(new);
@@ -476,8 +517,12 @@ pub fn phase(sim: &mut Sim, rng: &mut Rng, rep: &mut Report) -> Result<(), Strin
 			sim.dispatch(rep);
 		}
 		sim.w.mine(1);
-		for k in 0..n {
-			sim.w.nodes[k].mon.rebroadcast_pending_claims();
+		// (the periodic rebroadcast is a recommendation, not an obligation: the fee chaser runs do without it, so
+		// that claims are re-issued by the monitor's own height timers only)
+		if chase.is_none() {
+			for k in 0..n {
+				sim.w.nodes[k].mon.rebroadcast_pending_claims();
+			}
 		}
 		events_all(sim, rep);
 		if !copies.is_empty() {
